@@ -221,6 +221,22 @@ def choose_substitutions(rng, lines, times, mode):
             r = rs[0] if rng.random() < 0.7 else rng.choice(rs)
             for _ in range(4):
                 if add(r, rng.randrange(len(r[4])), rng.choice(['digits', 'digits', 'negative'])): break
+    elif mode == 'short-rows':
+        # a row that is printed with more numbers at one result time than at another: the cells that go blank elsewhere are
+        # given other (non-zero) digits, so that a blank cell that is not read as zero shows the stale number
+        per = {}
+        for ti, tabs in enumerate(times):
+            for pi, p in enumerate(tabs):
+                for r in p.rows:
+                    per.setdefault((pi, tuple(p.cols), norm_key(r[1])), []).append(r)
+        cands = []
+        for rs in per.values():
+            lo = min(len(r[4]) for r in rs)
+            for r in rs:
+                if len(r[4]) > lo: cands += [(r, j) for j in range(lo, len(r[4]))]
+        rng.shuffle(cands)
+        for r, j in cands[:24]:
+            add(r, j, 'digits')
     elif mode == 'first-rows':
         for p in times[0]:
             if p.rows and p.rows[0][4]:
@@ -268,17 +284,90 @@ def pick_times(n, which):
     return sorted({0, n // 2, n - 1})
 
 
+COMPANIONS = ['AUTOUGH2/8/case8.listing', 'TOUGH2/2/rfp.listing', 'TOUGH2-MP/1/OUTPUT_DATA', 'TOUGH3/1/OUTPUT',
+              'TOUGHREACT/2/case2.out', 'TOUGHplus/1/case1.dat']
+PRELUDE_INCON = ('INCON -- two of four primary variables, blank porosity, a block without values\n'
+                 '  a 1           0.10000000E+00\n 0.1000000000000E+06 0.2000000000000E+02\n'
+                 '  a 2\n 0.1000000000000E+06\n'
+                 '  a 3           \n 0.1000000000000E+06 0.2000000000000E+02 0.3000000000000E+00\n\n')
+_PRELUDE_DONE = [False]
+
+
+def prelude(listing_root):
+    """other PyTOUGH activity in this process before any listing is looked at: the other fixed-format readers (initial
+    conditions with blank fields, a data file, a geometry), through their public entry points"""
+    if _PRELUDE_DONE[0]: return
+    _PRELUDE_DONE[0] = True
+    tests = os.path.dirname(listing_root)
+    d = tempfile.mkdtemp(prefix='c05p-')
+    try:
+        import t2incons, t2data, mulgrids
+        p = os.path.join(d, 'blank.incon')
+        with open(p, 'w') as f: f.write(PRELUDE_INCON)
+        for q in [p, os.path.join(tests, 'incon', 'TOUGH2', '1', 'case1.incon'), os.path.join(tests, 'incon', 'AUTOUGH2', '1', 'case1.incon')]:
+            try: t2incons.t2incon(q)
+            except Exception: pass
+        try: t2data.t2data(os.path.join(tests, 'data', 'TOUGH2', '2', 'eos7c.dat'))
+        except Exception: pass
+        for root, _, fs in os.walk(os.path.join(tests, 'mulgrid')):
+            for fn in sorted(fs)[:1]:
+                try: mulgrids.mulgrid(os.path.join(root, fn))
+                except Exception: pass
+            break
+    finally:
+        shutil.rmtree(d, ignore_errors=True)
+
+
+class ReaderHang(BaseException):
+    """the reader used more CPU time than any job of this size can need: it does not return"""
+
+
+def _on_cpu_alarm(signum, frame): raise ReaderHang()
+
+
 def process(job):
+    """runs process_ under a CPU-time watchdog (process CPU, not wall clock: the bound does not depend on how busy the
+    machine is; the largest job needs 4 s of CPU, the bound for it is 33 s with other activity, 230 s otherwise)"""
+    import signal
+    mb = os.path.getsize(job['src']) / 1e6 if os.path.exists(job['src']) else 1.0
+    limit = (15 + 10 * mb) if job.get('interference') else (120 + 60 * mb)
+    old = None
+    try:
+        old = signal.signal(signal.SIGPROF, _on_cpu_alarm)
+        signal.setitimer(signal.ITIMER_PROF, limit)
+    except (ValueError, AttributeError): pass                 # not in a main thread: no watchdog
+    job = dict(job, _cpu_limit=limit)
+    try: return process_(job)
+    finally:
+        try:
+            signal.setitimer(signal.ITIMER_PROF, 0)
+            if old is not None: signal.signal(signal.SIGPROF, old)
+        except (ValueError, AttributeError): pass
+
+
+_STAGE = ['']
+
+
+def process_(job):
     """job: dict(src=absolute path of the shipped file, rel=its name, subs=None | list | mode string,
-    seed, times='quick'|'all', skips=max number of skip subsets (0: none), addr_stride)"""
+    seed, times='quick'|'all', skips=max number of skip subsets (0: none), addr_stride,
+    interference = None | {'prelude': bool, 'companions': [rel, ...]}: the statement is evaluated after other PyTOUGH
+    activity in the same process and with listings of the other simulators open (and kept open) at the same time)"""
     install_capture()
     import t2listing as T
     rel = job['rel']
-    res = {'rel': rel, 'cases': [], 'failures': [], 'stats': {}, 'subs': None, 'tok': [], 'variant': job.get('subs') is not None}
+    itf = job.get('interference')
+    if itf and itf.get('prelude'): prelude(job['src'][:-len(rel)].rstrip(os.sep))
+    res = {'rel': rel, 'cases': [], 'failures': [], 'stats': {}, 'subs': None, 'tok': [], 'variant': job.get('subs') is not None,
+           'interference': bool(job.get('interference'))}
     stats = res['stats']
+    companions = []
     def fail(oracle, key, inp, observed, required):
         d = {'file': rel, 'subs': res['subs']}
         d.update(inp)
+        if itf:
+            d['interference'] = itf
+            if key not in (FINDING15, NEG2, ABSENT_FIRST): key = 'with-other-activity:' + key
         if len(res['failures']) < 12:
             res['failures'].append({'oracle': oracle, 'key': key, 'input': d, 'observed': str(observed)[:600], 'required': str(required)[:600]})
         stats['failures'] = stats.get('failures', 0) + 1
@@ -311,6 +400,7 @@ def process(job):
         del _CAP[:]
         seen = set()
         # ---- open -------------------------------------------------------------------
+        _STAGE[0] = 't2listing(file)'
         try:
             lst = T.t2listing(path)
         except Exception as e:
@@ -333,12 +423,22 @@ def process(job):
             return res
         stats['opened'] = 1
         stats['sim_' + str(lst.simulator)] = 1
+        if itf:
+            # listings of the other simulators are opened now and stay open while this one is stepped through
+            _CAPTURE_ON[0] = False
+            for crel in itf.get('companions', []):
+                _STAGE[0] = 'opening %s while this listing is open' % crel
+                try: companions.append(T.t2listing(os.path.join(job['src'][:-len(rel)], crel)))
+                except Exception: pass
+            _CAPTURE_ON[0] = True
+            stats['companions_open'] = len(companions)
         nt = lst.num_fulltimes
         if nt != len(times):
             fail('result-times', 't2listing:result-times-differ', {'time': None}, nt, '%d result times printed' % len(times))
         tis = [t for t in pick_times(nt, job.get('times', 'quick')) if t < len(times)]
         snap = {}
         for ti in tis:
+            _STAGE[0] = 'index = %d' % ti
             try: lst.index = ti
             except Exception as e:
                 fail('reads', ABSENT_FIRST if absent_at_first(job, times[ti]) else 't2listing:set-index-raises:' + type(e).__name__,
@@ -353,7 +453,12 @@ def process(job):
         # ---- every result time, however it is reached ---------------------------------
         if job.get('routes', True) and snap:
             _CAPTURE_ON[0] = False
-            try: check_routes(lst, snap, times, fail, stats, job)
+            try:
+                for c in companions:                      # the other open listings move too
+                    _STAGE[0] = 'moving another open listing (%s)' % os.path.basename(c.filename)
+                    try: c.last(); c.first()
+                    except Exception: pass
+                check_routes(lst, snap, times, fail, stats, job)
             finally: _CAPTURE_ON[0] = True
         lst.close()
         # ---- every subset of skipped tables leaves the others identical ---------------
@@ -364,6 +469,7 @@ def process(job):
             subsets = subsets[:nsk]
             if job.get('skip_sets'): subsets = [tuple(x) for x in job['skip_sets']]
             for S in subsets:
+                _STAGE[0] = 't2listing(file, skip_tables=%s) and its indices' % list(S)
                 try: l2 = T.t2listing(path, skip_tables=list(S))
                 except Exception as e:
                     fail('skip-tables', 'skip_tables:open-raises', {'skip': list(S), 'time': None}, repr(e)[:300], 'opens like the unskipped listing')
@@ -391,8 +497,17 @@ def process(job):
                 l2.close()
             del _CAP[:]
         return res
+    except ReaderHang:
+        fail('reads', 't2listing:does-not-return', {'time': None, 'stage': _STAGE[0]},
+             'no return after %.0f s of CPU time during: %s' % (job.get('_cpu_limit', 0), _STAGE[0]), 'the reader returns (this listing is read in about a second)')
+        stats['hangs'] = 1
+        return res
     finally:
         del _CAP[:]
+        _CAPTURE_ON[0] = True
+        for c in companions:
+            try: c.close()
+            except Exception: pass
         if tmpdir: shutil.rmtree(tmpdir, ignore_errors=True)
 
 
@@ -405,6 +520,9 @@ def apply_route(lst, ops):
         elif op[0] == 'prev': lst.prev()
         elif op[0] == 'time': lst.time = op[1]
         elif op[0] == 'step': lst.step = op[1]
+
+
+SENTINEL = -7.7e77
 
 
 def routes_to(ti, n, ft, fs):
@@ -440,7 +558,15 @@ def check_routes(lst, snap, times, fail, stats, job):
             stats['routes'] = stats.get('routes', 0) + 1
             stats['route_' + kind] = stats.get('route_' + kind, 0) + 1
             ops_j = [list(o) for o in ops]
-            try: apply_route(lst, ops)
+            _STAGE[0] = 'moves %s' % ops_j
+            try:
+                apply_route(lst, ops[:-1])
+                # the tables are overwritten through the public column views (table[col][:] = x): what a move exposes must
+                # not depend on what the tables held before it (a blank trailing cell reads as zero, not as what was there)
+                for tn in lst.table_names:
+                    Tb = lst._table[tn]
+                    for c in set(Tb.column_name): Tb[c][:] = SENTINEL
+                apply_route(lst, ops[-1:])
             except Exception as e:
                 known = any(absent_at_first(job, times[t]) for t in range(min(len(times), n)))
                 fail('navigation', ABSENT_FIRST if known else 'set_index:%s:raises:%s' % (kind, type(e).__name__),
